@@ -43,6 +43,8 @@ func dumpFormats(l *Loaded, v2 *Loaded) {
 	}
 	if v2 != nil {
 		show(v2, "", "EncodeBytes", false)
+		show(v2, "", "MakeNode", true)
+		show(v2, "", "*Node.WriteBytes", false)
 		show(v2, "", "*Node.writeHashBytes", false)
 	}
 }
